@@ -43,7 +43,7 @@ def run(ctx):
     rng = vlib.Rng(ctx.seed)
     pc.regen_units(ctx, ['Rotenc'])
     ctx.prove(['Librfn.Props.C19'], REQUIRED, allow_extra_axioms=lambda t, a: a.startswith('Librfn.C19.step_delta_components._native.bv_decide.ax'))
-    exe, fast = pc.build(ctx)
+    exe, fast = pc.build(ctx, 'PURE_ROTENC')
     # translation validation: single steps, generated Lean vs compiled C
     calls = []
     for ls in range(4):
@@ -52,7 +52,7 @@ def run(ctx):
                 calls.append((ls, rng.below(65536) if rng.chance(1, 2) else (ic >> 2), ic, nx))
     for _ in range(1500 if ctx.tier == 'quick' else 20000):
         calls.append((rng.below(4), rng.below(65536), rng.below(65536), rng.below(4)))
-    c_out, lean_out = pc.differential(ctx, exe, ['rotenc %d %d %d %d' % c for c in calls])
+    c_out, lean_out = pc.differential(ctx, exe, ['rotenc %d %d %d %d' % c for c in calls], 'pure-rotenc')
     for i, c in enumerate(calls):
         ctx.count(c)
         if lean_out is not None and (i >= len(lean_out) or i >= len(c_out) or lean_out[i] != c_out[i]):
@@ -90,7 +90,7 @@ def replay(ctx, path):
     r = json.load(open(path))
     if 'states' not in r:
         print('replay names a broken obligation or sweep case:', r.get('obligation'), r.get('failing_case')); return 1
-    _, fast = pc.build(ctx)
+    _, fast = pc.build(ctx, 'PURE_ROTENC')
     rc, out, err = vlib.sh([fast, 'walkreplay', r['states']])
     print(out.strip())
     return 1 if out.startswith('FAIL') else 0
